@@ -29,6 +29,8 @@ PY = sys.executable
 
 def _env():
     e = dict(os.environ)
+    if e.get('VERIF_TIER_ACTIVE') == 'thorough':
+        e.setdefault('VERIF_XCHECK', '7')
     e['PYTHONPATH'] = REPO + os.pathsep + ROOT
     e['PYTHONDONTWRITEBYTECODE'] = '1'
     e.setdefault('PYTHONHASHSEED', '0')
@@ -148,6 +150,14 @@ def worker_main(modname, spec_path, out_path):
             status = 'error'
             ctx.error(''.join(traceback.format_exception(type(e), e, e.__traceback__))[-3000:])
     res = ctx.result()
+    try:
+        from sx import core as _core
+        res['xcheck'] = {k: _core.XCHECK[k] for k in ('checked', 'agree', 'unknown', 'disagree')}
+        if _core.XCHECK['disagree']:
+            res['errors'] = (res.get('errors') or []) + ['cvc5 answers sat on an obligation z3 answered unsat: ' + (_core.XCHECK['samples'] or [''])[0][:800]]
+            status = 'error' if status == 'done' else status
+    except Exception:  # noqa: BLE001
+        pass
     res['status'] = status
     res['wall_s'] = round(time.time() - t0, 2)
     res['functions'] = sorted(_FUNCS)
@@ -265,6 +275,7 @@ def load_known(pid):
 
 def check_main(pid, tier, only=None, njobs=None, keep=False):
     t0 = time.time()
+    os.environ['VERIF_TIER_ACTIVE'] = tier
     seed = int(os.environ.get('VERIF_SEED', '0') or 0)
     modname = 'harness.' + pid.lower()
     sys.path.insert(0, REPO)
@@ -427,6 +438,7 @@ def write_evidence(mod, pid, tier, seed, results, wall, nviol, replayed, spuriou
             'false_obligation_sat': sum(r.get('vacuity', {}).get('false_ob_sat', 0) for r in results),
         },
         'translator_validation_points': sum(r.get('validated', 0) for r in results),
+        'cvc5_crosscheck': {k: sum((r.get('xcheck') or {}).get(k, 0) for r in results) for k in ('checked', 'agree', 'unknown', 'disagree')},
         'counterexamples_replayed': replayed,
         'counterexamples_not_reproduced': spurious,
         'known_findings_matched': sorted(known_hits),
